@@ -1119,7 +1119,8 @@ class Interp:
             from .spec import prove_equiv
             self.ctx.nyield_sites += 1
             prove_equiv(self, f"yield@L{node.lineno}", "yield", v, expect)
-        self.ctx.yields.append(v)
+        if self.ctx.yields is not None:
+            self.ctx.yields.append(v)
         self.ctx.ycount = simp(self.ctx.ycount + 1) if is_sym(self.ctx.ycount) else self.ctx.ycount + 1
 
     # =========================================================== calls ==================
@@ -1241,6 +1242,16 @@ class Interp:
 
     def call_function(self, fv, args, kwargs, as_root=False):
         key = self.contract_key(fv) if not isinstance(fv.node, ast.Lambda) else None
+        if key and fv.cls is not None and args and isinstance(args[0], SObj) and fv.kind == "function":
+            # dynamic dispatch: a contract stated for the receiver's (sub)class takes precedence
+            for c in self.mro(args[0].cls):
+                if isinstance(c, ClassVal):
+                    k2 = f"{c.module.path}::{c.name}.{fv.name}"
+                    if k2 in self.contracts:
+                        key = k2
+                        break
+                if c is fv.cls:
+                    break
         env = Env(fv.module, fv, fv.closure)
         values = self.bind_args(fv, args, kwargs, env)
         if key and not as_root and self.modular and key in self.contracts and key != self.root:
